@@ -5,13 +5,15 @@ open BsVerif.Sig
 #print axioms sigintStable
 #print axioms C10_sigint_never_delivered
 #print axioms noDupStable
-#print axioms C10_nonquiet_never_duplicated
-#print axioms cleanStable
+#print axioms C10_never_duplicated
+#print axioms quietStable
+#print axioms C10_quiet_passthrough
+#print axioms clean_of_noPileUp
 #print axioms C10_delivery_once_partial
 #print axioms C10_sent_arrives_or_pending
 #print axioms C10_sent_delivered_once_partial
+#print axioms exited_nothing_pending
+#print axioms C10_delivery_once_exit_partial
+#print axioms C10_delivery_lost_counterexample
 #print axioms C10_burst_partial
 #print axioms C10_burst_counterexample
-#print axioms C10_delivery_once_counterexample
-#print axioms C10_delivery_lost_counterexample
-#print axioms C10_quiet_passthrough_counterexample
